@@ -2,6 +2,7 @@ package tree
 
 import (
 	"context"
+	"fmt"
 	"math"
 	"strings"
 	"sync"
@@ -147,10 +148,29 @@ func (c *TreeCacheClientImpl) ReadUpdatesOwner(ctx context.Context, owner string
 
 	ownerPaths := c.getPathsOfOwner(ctx, owner)
 
-	return c.Read(ctx, &cache.Opts{
-		Store: cachepb.Store_INTENDED,
-		Owner: owner,
+	// Read all priorities of the owners paths and filter for the owner.
+	// Reading with the owner set but without a priority only returns the highest
+	// priority entries of each path, no matter which owner they belong to.
+	updates := c.Read(ctx, &cache.Opts{
+		Store:    cachepb.Store_INTENDED,
+		Priority: -1,
 	}, ownerPaths.paths.ToStringSlice())
+
+	result := make(UpdateSlice, 0, len(updates))
+	seen := map[string]struct{}{}
+	for _, u := range updates {
+		if u.Owner() != owner {
+			continue
+		}
+		// a path that is a prefix of another path of the owner yields the deeper entries twice
+		key := fmt.Sprintf("%s%s%d%s%d", strings.Join(u.GetPath(), KeysIndexSep), KeysIndexSep, u.Priority(), KeysIndexSep, u.TS())
+		if _, exists := seen[key]; exists {
+			continue
+		}
+		seen[key] = struct{}{}
+		result = append(result, u)
+	}
+	return result
 }
 
 func (c *TreeCacheClientImpl) getPathsOfOwner(ctx context.Context, owner string) *PathSet {
